@@ -280,6 +280,8 @@ pub fn def16() -> PropertyDef {
         witnesses: vec![],
         exhaustive: None,
         exhaustive_in_quick: false,
+        custom: None,
+        custom_replay: None,
     }
 }
 
@@ -296,5 +298,7 @@ pub fn def17() -> PropertyDef {
         witnesses: vec![],
         exhaustive: None,
         exhaustive_in_quick: false,
+        custom: None,
+        custom_replay: None,
     }
 }
